@@ -254,3 +254,48 @@ func VerifH_C01_api_chunked_f64() {
 	vrt.Covered("read-back")
 	_ = f.Close()
 }
+
+// rank 3 chunked float64 (superblock v2): extents 2..3, chunk extents 1..2 — clipped middle and last dimensions.
+func VerifH_C01_api_chunked_rank3() {
+	dims := make([]uint64, 3)
+	chunk := make([]uint64, 3)
+	total := 1
+	for i := range dims {
+		dims[i] = uint64(2 + vrt.Choice(2))
+		chunk[i] = uint64(1 + vrt.Choice(2))
+		total *= int(dims[i])
+	}
+	data := make([]float64, total)
+	for i := range data {
+		data[i] = math.Float64frombits(vrt.U64())
+	}
+	f, d := verifWriteReopen("c01r3.h5", 2, Float64, dims, data, WithChunkDims(chunk))
+	got, err := d.Read()
+	vrt.AssertNoErr(err, "chunked-read-ok")
+	vrt.Assert(len(got) == total, "same-shape")
+	for i := range data {
+		vrt.Assert(math.Float64bits(got[i]) == math.Float64bits(data[i]), "chunked-values-bit-exact")
+	}
+	vrt.Covered("read-back")
+	_ = f.Close()
+}
+
+// chunked int32 rank 2 with a 4-wide last dimension (chunk 3: partial edge chunk in the fastest dimension)
+func VerifH_C01_api_chunked_i32() {
+	ver := verifVersion()
+	dims := []uint64{uint64(1 + vrt.Choice(3)), 4}
+	chunk := []uint64{uint64(1 + vrt.Choice(int(dims[0]))), uint64(1 + vrt.Choice(4))}
+	total := int(dims[0]) * 4
+	data := make([]int32, total)
+	want := make([]float64, total)
+	for i := range data {
+		data[i] = vrt.I32()
+		want[i] = float64(data[i])
+	}
+	f, d := verifWriteReopen("c01ci.h5", ver, Int32, dims, data, WithChunkDims(chunk))
+	got, err := d.Read()
+	vrt.AssertNoErr(err, "chunked-read-ok")
+	verifIntCheck(got, err, want)
+	vrt.Covered("read-back")
+	_ = f.Close()
+}
